@@ -8,6 +8,7 @@ evaluated inside Coq; (6) verdict.
 import json, os
 from harness import common as C
 from harness.common import cbytes, cbool, clist, cnat, cpair
+from harness.props import pyfun_util
 
 PID = "C11"
 KEY_STRAY = "stray-continuation-taken-as-start"
@@ -109,6 +110,15 @@ def run(ctx):
                        "fragments are fed to the peer in order (the link layer's job)"]
     proofs_ok, detail = ctx.check_proofs(lib_targets=["theories/Lib/Bytes.vo"])
     ctx.log("proofs:", proofs_ok, detail.splitlines()[0][:200])
+    # ---- arithmetic core regenerated from the source and proved equal to the model ----
+    # (harness/translators/pyfun.py, theories/C11/{Gen,GenEq,PropertyGen}.v, design/PYTRANS.md)
+    gen = pyfun_util.check_generated(ctx, PID)
+    ctx.log("generated arithmetic (get_fragments, on_data_received):", "ok" if gen["ok"] else "BROKEN: " + str(gen["what"])[:200],
+            "; identical to snapshot:", ctx.cov["pyfun"]["identical_to_snapshot"])
+    ctx.cov["trusted_base"].append(
+        "the arithmetic of get_fragments / on_data_received is NOT trusted to the hand-written model: it is regenerated from the source by "
+        "harness/translators/pyfun.py on every run and proved equal to the model (PropertyGen.v); trusted there: the translator's reading of "
+        "Python (validated differentially against CPython on this run) and int(a/b) = a//b below 2^53 (design/PYTRANS.md)")
 
     # ---- generation + implementation ------------------------------------
     send_cases = gen_send_cases(ctx)
@@ -280,8 +290,8 @@ def run(ctx):
     ctx.cov["samples"] = [{"send": [send_cases[5][0], send_cases[5][1], send_cases[5][2].hex()], "impl_frags": r1["send"][5]},
                           {"recv": [[f, d.hex()] for f, d in recv_cases[-1]], "impl_out": r2["recv"][-1]},
                           {"recv": [[f, d.hex()[:80]] for f, d in recv_cases[3]], "kind": meta[3]["kind"]}]
-    ctx.cov["source_ties"] = [C.source_tie("whad/ble/stack/l2cap/__init__.py", 65, 175),
-                              C.source_tie("whad/ble/stack/llm/__init__.py", 528, 570)]
+    ctx.cov["source_ties"] = ctx.cov.get("source_ties", []) + [C.source_tie("whad/ble/stack/l2cap/__init__.py", 65, 175),
+                                                               C.source_tie("whad/ble/stack/llm/__init__.py", 528, 570)]
 
     # ---- verdict --------------------------------------------------------------
     ctx.log("correspondence (link layer): send %d cases %d bad; recv %d cases %d bad" % (len(ll_send_terms), len(bad_ls), len(ll_recv_terms), len(bad_lr)))
@@ -295,9 +305,9 @@ def run(ctx):
                           {"op": "recv", "frags": [[f, d.hex()] for f, d in recv_cases[i]], "kind": meta[i]["kind"]},
                           expected=[[c, d.hex()] for c, d in ref_recv(recv_cases[i], False)], observed=r2["recv"][i]["out"])
             break
-    if bad_s or bad_r or bad_ls or bad_lr or not proofs_ok:
+    if bad_s or bad_r or bad_ls or bad_lr or not proofs_ok or not gen["ok"]:
         if not ctx.violations:
-            first = None
+            first = pyfun_util.first_case(gen) if not gen["ok"] else None
             if bad_s:
                 i = send_idx[bad_s[0]]
                 first = {"op": "send", "case": [send_cases[i][0], send_cases[i][1], send_cases[i][2].hex()], "impl": r1["send"][i]}
@@ -309,8 +319,9 @@ def run(ctx):
             elif bad_lr:
                 first = {"op": "recv_ll", "term": ll_recv_terms[bad_lr[0]][:3000]}
             what = ("correspondence C11.Model vs L2CAPLayer/LinkLayer (%d send, %d recv, %d ll-send, %d ll-recv disagreements)" % (len(bad_s), len(bad_r), len(bad_ls), len(bad_lr))
-                    if (bad_s or bad_r or bad_ls or bad_lr) else "proof obligations of theories/C11: " + detail.splitlines()[0][:200])
-            ctx.broken_obligation(what, detail if not proofs_ok else "\n".join(logs_s + logs_r), first)
+                    if (bad_s or bad_r or bad_ls or bad_lr) else
+                    ("proof obligations of theories/C11: " + detail.splitlines()[0][:200]) if not proofs_ok else str(gen["what"]))
+            ctx.broken_obligation(what, (detail if not proofs_ok else "\n".join(logs_s + logs_r)) + gen["detail"], first)
     ctx.cov["correspondence"] = {"send_cases": len(send_terms), "send_bad": len(bad_s), "recv_cases": len(recv_terms), "recv_bad": len(bad_r),
                                  "ll_send_cases": len(ll_send_terms), "ll_send_bad": len(bad_ls), "ll_recv_cases": len(ll_recv_terms), "ll_recv_bad": len(bad_lr)}
 
